@@ -291,7 +291,7 @@ var c04Export = hx.Register(&hx.Check[c04Case]{
 		case "reflect-map", "reflect-slice", "node-map", "node-slice":
 			// what the Go-data stores can hold (as in C03 / C18)
 			o.CompoundKeys, o.Unions, o.ConfigFalse = false, false, false
-			o.Types = []string{"int8", "int32", "int64", "uint16", "uint64", "decimal64", "string", "boolean"}
+			o.Types = []string{"int8", "int32", "int64", "uint16", "uint64", "decimal64", "string", "boolean", "enumeration"}
 			o.KeyTypes = []string{"string", "int32"}
 			to = dm.TreeOpts{MaxEntries: 3, EasyKeys: true, EasyStrings: true, PresentPct: 75, NoEmptyStr: true}
 		case "reflect-struct", "node-struct":
